@@ -229,6 +229,14 @@ func (s *Stream) Written() int64 {
 	return s.out.written
 }
 
+// Incoming reports how many bytes the peer has written into this end's incoming
+// direction so far (whether or not they were read yet).
+func (s *Stream) Incoming() int64 {
+	s.in.mu.Lock()
+	defer s.in.mu.Unlock()
+	return s.in.written
+}
+
 // Consumed reports how many of the bytes this end has written the peer has read.
 func (s *Stream) Consumed() int64 {
 	s.out.mu.Lock()
